@@ -93,6 +93,28 @@ pub fn run(args: &Args) -> Report {
             check(&mut report, &rig, e, &states);
         }
     }
+    // look-alike texts outside each type's grammar (relaxed datetimes, signed / hex / float
+    // integers, out-of-range safelongs, ...), one argument at a time, others valid
+    for e in &eps {
+        for (i, a) in e.args.iter().enumerate() {
+            if !matches!(a.kind, reqs::Kind::Path | reqs::Kind::Query(_) | reqs::Kind::Header(_)) {
+                continue;
+            }
+            for alt in &a.bad_alts {
+                if matches!(a.kind, reqs::Kind::Header(_)) && !alt.bytes().all(|b| (0x20..0x7f).contains(&b)) {
+                    continue;
+                }
+                let mut e2 = e.clone();
+                e2.args[i].bad = match a.kind {
+                    // keep the URI well-formed
+                    reqs::Kind::Path | reqs::Kind::Query(_) => alt.replace('+', "%2B").replace(' ', "%20").replace(',', "%2C"),
+                    _ => alt.to_string(),
+                };
+                let states: Vec<St> = (0..e.args.len()).map(|j| if j == i { St::Unparsable } else { St::Valid }).collect();
+                check(&mut report, &rig, &e2, &states);
+            }
+        }
+    }
     // the macro-derived services (names with and without log_as)
     crate::macros::c19(&mut report);
     report.sample("subset", json!({"endpoint": "queryParams", "states": ["Valid", "Unparsable", "Valid", "Valid", "Unparsable", "Valid", "Valid", "Absent", "Valid"], "expect": "INVALID_ARGUMENT, param in {optInt, colors, flag}, handler not invoked"}));
